@@ -8,7 +8,7 @@
  "noreturn_macros": false, "stubs": [],
  "timeout": 120,
  "expects": ["postcondition"],
- "assumes": ["the element size does not exceed the length of a non-empty array (the function's own assert(); arraylast has no caller in the pinned tree)"]
+ "assumes": ["the element size does not exceed the length of a non-empty array (the function's own assert(); its callers pp.c:ctxnext and pp.c:peekparen pass sizeof(struct frame) on an array of frames)"]
 }
 */
 #include "util_common.h"
